@@ -122,6 +122,19 @@ fn targeted(rng: &mut Rng, fr: &FastRef, slots: usize, open: &mut Vec<(u8, Vec<u
     let lab6 = [0xAA, 1, 2, 3, 4, 5];
     let lab3 = [0xBB, 1, 2];
     let slots1 = std::cmp::max(slots, 1);
+    // an id that shares the memory slot of `id` (255 slots: only 0 and 255 share one)
+    let alias = |id: u8| -> u8 {
+        if slots1 == 255 {
+            match id {
+                0 => 255,
+                255 => 0,
+                o => o,
+            }
+        } else {
+            id.wrapping_add(slots1 as u8)
+        }
+    };
+    let fresh_id = |rng: &mut Rng| -> u8 { if slots1 == 255 { [0u8, 255, 1, 254][rng.below(4)] } else { rng.below(8) as u8 } };
     match rng.below(24) {
         0 => (mk_complete(0, &lab6, 0x0800, &small(rng, BASE)), "complete-valid"),
         1 => (mk_complete(1, &lab3, 0x0800, &small(rng, BASE)), "complete-valid"),
@@ -135,8 +148,8 @@ fn targeted(rng: &mut Rng, fr: &FastRef, slots: usize, open: &mut Vec<(u8, Vec<u
             // new first fragment (new id, same id as an open one, or aliasing one)
             let id = match rng.below(3) {
                 0 if !open.is_empty() => open[rng.below(open.len())].0,
-                1 if !open.is_empty() => open[rng.below(open.len())].0.wrapping_add(slots1 as u8),
-                _ => rng.below(8) as u8,
+                1 if !open.is_empty() => alias(open[rng.below(open.len())].0),
+                _ => fresh_id(rng),
             };
             let lt = rng.below(4) as u8;
             let wl: Vec<u8> = match lt {
@@ -193,7 +206,7 @@ fn targeted(rng: &mut Rng, fr: &FastRef, slots: usize, open: &mut Vec<(u8, Vec<u
             }
         }
         17 => {
-            let id = if !open.is_empty() && rng.chance(1, 2) { open[0].0.wrapping_add(slots1 as u8) } else { 200 + rng.below(8) as u8 };
+            let id = if !open.is_empty() && rng.chance(1, 2) { alias(open[0].0) } else { 200 + rng.below(8) as u8 };
             (mk_inter(id, &small(rng, 8).iter().chain([1u8].iter()).cloned().collect::<Vec<_>>()), "inter-unknown-or-aliasing-id")
         }
         18 => {
@@ -205,7 +218,7 @@ fn targeted(rng: &mut Rng, fr: &FastRef, slots: usize, open: &mut Vec<(u8, Vec<u
             (mk_end(id, &big(rng, BASE + 10, 30), 0x1234), "end-oversize")
         }
         20 => {
-            let id = if !open.is_empty() && rng.chance(1, 2) { open[0].0.wrapping_add(slots1 as u8) } else { 200 + rng.below(8) as u8 };
+            let id = if !open.is_empty() && rng.chance(1, 2) { alias(open[0].0) } else { 200 + rng.below(8) as u8 };
             (mk_end(id, &small(rng, 8), 0xDEAD_BEEF), "end-unknown-or-aliasing-id")
         }
         21 => (vec![0x30, 0x01, rng.below(8) as u8], "inter-empty"),
@@ -229,7 +242,7 @@ impl Property for Prop {
         "C08"
     }
     fn rule(&self) -> &'static str {
-        "histories: seeded sequences of 200..3000 calls of provision (from the caller's pool or a fresh buffer, also when the free list is full), decap of packets targeted at each exit (valid complete / first / intermediate / end; re-use without remembered label in complete and first packets; CRC and length mismatch; oversize complete / first / intermediate / end; unknown and aliasing fragment ids; unknown mandatory extension; zero label; no storage; short GSE length per kind) mixed with hostile packets, reset; memories of 0,1,2,4 slots; after EVERY call a clone-and-drain census of the bundled memory is compared with the set of buffers ever created (identity = unique length): every buffer in exactly one of caller / free / attached / quarantine. faults: for each scenario (receiver state x packet) the memory operations behind the GseDecapMemory trait are counted, then the scenario is re-run failing operation i for every i with every error the trait documents for that operation (StorageUnderflow, StorageOverflow(buf), BufferTooSmall(buf), UndefinedId, MemoryCorrupted). big: buffers of 70000+ bytes with trains that reach and exceed 65535 received bytes, audited after every call. An evaluation = one audited call; non-trivial = an audited decap call that ended in an error or moved a buffer; fingerprint = (exit signature, free count, attached count, injected fault)."
+        "histories: seeded sequences of 200..3000 calls of provision (from the caller's pool or a fresh buffer, also when the free list is full), decap of packets targeted at each exit (valid complete / first / intermediate / end; re-use without remembered label in complete and first packets; CRC and length mismatch; oversize complete / first / intermediate / end; unknown and aliasing fragment ids; unknown mandatory extension; zero label; no storage; short GSE length per kind) mixed with hostile packets, reset; memories of 0,1,2,3,4 and 255 slots (there with the fragment ids 0 / 255, which share a slot, and 1 / 254); after EVERY call a clone-and-drain census of the bundled memory is compared with the set of buffers ever created (identity = unique length): every buffer in exactly one of caller / free / attached / quarantine. faults: for each scenario (receiver state x packet) the memory operations behind the GseDecapMemory trait are counted, then the scenario is re-run failing operation i for every i with every error the trait documents for that operation (StorageUnderflow, StorageOverflow(buf), BufferTooSmall(buf), UndefinedId, MemoryCorrupted). big: buffers of 70000+ bytes with trains that reach and exceed 65535 received bytes, audited after every call. An evaluation = one audited call; non-trivial = an audited decap call that ended in an error or moved a buffer; fingerprint = (exit signature, free count, attached count, injected fault)."
     }
     fn gens(&self, cx: &Cx) -> Vec<Gen> {
         vec![Gen { name: "histories", count: cx.n(1_500, 60_000), exhaustive: false }, Gen { name: "faults", count: cx.n(6_000, 300_000), exhaustive: false }, Gen { name: "big", count: cx.n(24, 600), exhaustive: false }]
@@ -238,7 +251,7 @@ impl Property for Prop {
         let replay_s = format!("gen={} key={} seed={} profile={}", gen, key, cx.seed, cx.profile);
         let mut rng = Rng::derive(cx.seed, fnv(gen.as_bytes()), key);
         let fr = FastRef::new();
-        let slots = [0usize, 1, 1, 2, 2, 4][rng.below(6)];
+        let slots = [0usize, 1, 1, 2, 2, 4, 3, 255][rng.below(8)];
         match gen {
             "histories" => {
                 let mut w = World::new(slots, some_table());
